@@ -49,6 +49,9 @@ type Channel struct {
 	CurrentHeaderType PacketHeaderType
 	// curPacketNr is the number of the next packet being sent
 	curPacketNr int
+	// txOpen is true while packets of the current message have been
+	// sent but none of them carried the EOM status yet.
+	txOpen bool
 	// window is the amount of buffers transmitted between ACKs
 	window int
 
@@ -538,6 +541,18 @@ func (tdsChan *Channel) sendPackets(ctx context.Context, onlyFull bool) error {
 		}
 	}
 
+	// The message ended exactly on a packet boundary - all its packets
+	// were full and none carried EOM. Terminate the message with an
+	// empty packet.
+	if !onlyFull && tdsChan.txOpen {
+		eom := NewPacket(PacketHeaderSize)
+		eom.Header.Length = PacketHeaderSize
+		eom.Data = nil
+		if err := tdsChan.sendPacket(eom); err != nil {
+			return fmt.Errorf("error sending packet %s: %w", eom, err)
+		}
+	}
+
 	return nil
 }
 
@@ -567,6 +582,7 @@ func (tdsChan *Channel) sendPacket(packet *Packet) error {
 			int(packet.Header.Length)+PacketHeaderSize, n)
 	}
 
+	tdsChan.txOpen = packet.Header.Status&TDS_BUFSTAT_EOM != TDS_BUFSTAT_EOM
 	return nil
 }
 
